@@ -353,4 +353,18 @@ def r4_walk(ctx):
     ctx.need('R4.reversed', 1)
 
 
-RULES = [('R1.layout', r1_layout), ('R2.indices', r2_indices), ('R3.grid', r3_grid), ('R4.walk', r4_walk)]
+def r5_common_range(ctx):
+    """usable slots = bands common to all amplifiers of the OMS: the common range is the pairwise intersection over
+    every amplifier band list, duplicates removed on whole-value equality only (shared with C07-R3)"""
+    from .c07 import r3_common_range
+    r3_common_range(ctx, 'R5.common-range')
+    # and create_oms_bitmap asks for the common range of THIS OMS' elements
+    repo = ctx.repo
+    f = repo.func(MOD, 'create_oms_bitmap')
+    cr = calls_to(f, {'find_elements_common_range'})
+    ok = len(cr) == 1 and [ast.unparse(a) for a in cr[0].args] == [f'{f.params[0]}.el_list', f.params[1]]
+    ctx.check('R5.common-range', site(f), ok, key(f, 'own-elements'),
+              'the usable bands of an OMS are not computed from the elements of that OMS')
+
+
+RULES = [('R5.common-range', r5_common_range), ('R1.layout', r1_layout), ('R2.indices', r2_indices), ('R3.grid', r3_grid), ('R4.walk', r4_walk)]
